@@ -118,6 +118,31 @@ def _cheap(e):
 # context
 
 
+# second-solver cross-check: the first discharged (unsat) query of every distinct obligation kind of a job is exported as
+# SMT-LIB2 text (path condition + negated obligation) and handed to cvc5 by the runner (symx/run.py)
+XQUERIES = []
+_XSEEN = set()
+XCAP = int(_os.environ.get("VERIF_XCHECK_PER_JOB", "6"))
+
+
+def _xcollect(cx, label, neg):
+    import re as _re
+
+    if len(XQUERIES) >= XCAP:
+        return
+    key = _re.sub(r"\[[^\]]*\]|\d+", "#", label)
+    if key in _XSEEN:
+        return
+    _XSEEN.add(key)
+    try:
+        s2 = z3.Solver()
+        s2.add(*cx.solver.assertions())
+        s2.add(neg)
+        XQUERIES.append((label, s2.to_smt2()))
+    except Exception:
+        pass
+
+
 class Obligation:
     __slots__ = ("label", "status", "assignment", "detail", "secs")
 
@@ -289,6 +314,7 @@ class Ctx:
             r = self._check(neg, timeout=CHECK_TIMEOUT_MS)
         if r == z3.unsat:
             self.obligations.append(Obligation(label, "unsat", None, note, time.time() - t0))
+            _xcollect(self, label, neg)
             return True
         pin = []
         if r == z3.sat and self.exp_args:
